@@ -1,5 +1,5 @@
 """Label-level history generator.  Produces JSON-able block ops (see vf.build.World.build_block) from a
-`random.Random`-compatible source -- in the checks that source is Hypothesis' st.randoms(use_true_random=False), so
+`random.Random`-compatible source -- in the checks that source is Hypothesis' st.randoms(use_true_random=True), so
 every choice is made (and shrunk) by the library.  Keeps its own label-level ledger; never touches the code under test.
 """
 HALVING = 1_050_000
@@ -105,9 +105,9 @@ class Gen:
             ins.append(avail.pop(self.r.randrange(len(avail))))
         total = sum(v for _, (v, _k) in ins)
         fmode = self.r.randrange(5)
-        fee = 0 if fmode == 0 else (1 if fmode == 1 else (self.r.randint(0, min(total - 1, 5000)) if fmode == 2
-                                                          else (total - 1 if fmode == 3 else self.r.randint(0, total - 1))))
-        fee = min(fee, total - 1)
+        fee = 0 if (fmode == 0 or total < 2) else (1 if fmode == 1 else (self.r.randint(0, min(total - 1, 5000)) if fmode == 2
+                                                                     else (total - 1 if fmode == 3 else self.r.randint(0, total - 1))))
+        fee = max(0, min(fee, total - 1))
         n_out = min(total - fee, self.r.choice([1, 1, 2, 2, 3]))
         vals = self.split(total - fee, n_out)
         outs = [[v, self.r.randrange(N_KEYS)] for v in vals]
@@ -121,7 +121,7 @@ class Gen:
         label = "%sb%d" % (self.opts["prefix"], self.n)
         op = {"label": label, "parent": p.label, "miner": self.r.randrange(N_KEYS), "txs": []}
         op["dt"] = self.choose_dt(p, dt)
-        avail = sorted((r, o) for r, o in p.utxo.items() if o[1] is not None)
+        avail = sorted((r, o) for r, o in p.utxo.items() if o[1] is not None and o[0] >= 1)
         if n_tx is None:
             n_tx = 0
             while n_tx < self.opts["max_tx"] and self.r.random() < self.opts["p_tx"]:
@@ -219,7 +219,7 @@ class Gen:
         r = self.r
         cat = r.choice(cats)
         own = [t for t in o["txs"] if "copy" not in t]
-        spendable = sorted((ref, ov) for ref, ov in p.utxo.items() if ov[1] is not None)
+        spendable = sorted((ref, ov) for ref, ov in p.utxo.items() if ov[1] is not None and ov[0] >= 1)
         used = {tuple(i) for t in own for i in t["ins"]}
         free = [s for s in spendable if s[0] not in used]
         label = o["label"]
@@ -394,7 +394,12 @@ class Gen:
             tags = ["target+1", "target-1", "height+1", "height-1", "cb_height+1", "cb_height-1", "ts=parent", "ts<parent",
                     "future31", "pow_bad", "ev0", "ev1", "ev2", "ev_sibling", "unknown_parent", "merkle_other",
                     "unretargeted" if boundary else "retargeted_anyway"]
+            if boundary:
+                tags += ["target_other_chain"] * 4
             tag = r.choice(tags)
+            best = self.best()
+            if boundary and p.label not in best.chain and r.random() < 0.6:
+                tag = "target_other_chain"           # candidate on a NON-head branch at a boundary: the telling case
             hdr = o.setdefault("hdr", {})
             if tag == "target+1":
                 if self.target_at(p, p.ts + o["dt"]) >= TWO256 - 1:
@@ -412,6 +417,24 @@ class Gen:
                     alt = min(p.target * max(1, p.ts + o["dt"] - self.start_ts(p, h - self.period)) // self.timespan, TWO256 - 1)
                     if alt == p.target or alt < TARGET_FLOOR:
                         return None
+            elif tag == "target_other_chain":
+                # the target the rule would prescribe from ANOTHER branch's interval start (not the block's own ancestors)
+                sh = h - self.period
+                if sh < self.base_h:
+                    return None
+                mine = p.chain[sh - self.base_h]
+                others = sorted({self.L[l].chain[sh - self.base_h] for l in self.order
+                                 if self.L[l].height >= sh and self.L[l].chain[sh - self.base_h] != mine})
+                if not others:
+                    return None
+                start = self.L[r.choice(others)]
+                if best.height >= sh and best.chain[sh - self.base_h] != mine and r.random() < 0.8:
+                    start = self.L[best.chain[sh - self.base_h]]          # the interval start of the ACTIVE chain
+                ts = p.ts + o["dt"]
+                alt = min(p.target * max(1, ts - start.ts) // self.timespan, TWO256 - 1)
+                if alt == self.target_at(p, ts) or alt < TARGET_FLOOR:
+                    return None
+                hdr["target"] = ["hex", "%064x" % alt]
             elif tag == "height+1":
                 hdr["height"] = 1
                 hdr["cb_height"] = 1
